@@ -20,6 +20,7 @@
 package newrelic
 
 import (
+	"io/ioutil"
 	"encoding/hex"
 	"encoding/json"
 	"fmt"
@@ -35,6 +36,7 @@ import (
 	flatbuffers "github.com/google/flatbuffers/go"
 
 	"github.com/newrelic/newrelic-php-agent/daemon/internal/newrelic/collector"
+	"github.com/newrelic/newrelic-php-agent/daemon/internal/newrelic/log"
 	"github.com/newrelic/newrelic-php-agent/daemon/internal/newrelic/protocol"
 )
 
@@ -967,6 +969,13 @@ func TestVerifC10(t *testing.T) {
 				Host: "hostH", TOHost: "127.0.0.1", TOPort: 443, Queue: 1 << 62, Span: 2000, Log: 10000, Custom: 30000})),
 		}
 	case "run":
+		// the audit log is on, as with `auditlog = <file>` in the daemon's configuration: the code that runs only then
+		// (audit lines written while messages are handled) is part of what must contain a malformed message (seeded/C10i1)
+		if f, err := ioutil.TempFile("", "verifc10audit"); err == nil {
+			f.Close()
+			defer os.Remove(f.Name())
+			log.InitAudit(f.Name())
+		}
 		if in.Parallel <= 0 {
 			in.Parallel = 8
 		}
